@@ -33,7 +33,12 @@ WellKinded(x) ==
   /\ (x.k = "Array" => \A i \in 1..Len(x.c) : x.c[i].k = x.ek)
   /\ (x.k = "Map" => \A i \in 1..Len(x.c) : x.c[i].k = (IF i % 2 = 1 THEN x.ek ELSE x.vk))
   /\ \A i \in 1..Len(x.c) : WellKinded(x.c[i])
-Universe == {x \in N1 \cup N2 \cup N3 \cup N4 : WellKinded(x)}
+\* length ladders: strings, arrays and maps of 0..5 elements (values just below / at / above every length bound
+\* used by the generators, which go up to 3)
+Ladder == {XStr(n) : n \in 0..5}
+          \cup {XArray("Bool", [i \in 1..n |-> XBool]) : n \in 0..5} \cup {XArray("U8", [i \in 1..n |-> XU8(1)]) : n \in 0..5}
+          \cup {XMap("U8", "Bool", [i \in 1..(2 * n) |-> IF i % 2 = 1 THEN XU8(i \div 2) ELSE XBool]) : n \in 0..5}
+Universe == {x \in N1 \cup N2 \cup N3 \cup N4 \cup Ladder : WellKinded(x)}
 \* Only values of the kind a root type requires can be valid under it: the soundness checks
 \* range over the matching slice of the universe (all of it for an Any root).
 RootKinds == {"Bool", "U8", "String", "Tuple", "Enum", "Array", "Map"}
